@@ -35,6 +35,46 @@ CLAIMED = {
         note="Coq kernel + vm_compute; stdlib Reals axioms where R is used; hand model tied by correspondence only; libm pow recorded from the implementation; known finding modify:hedged-degree-leaks is reported as KNOWN-FINDING.",
         technique="Rocq proof (induction over conclusions) about a hand model + exact correspondence on generated rules",
         ref="DESIGN.md §3 C07"),
+    "C01": dict(
+        text="Model of Engine.process in scalar mode composed from the component models (antecedent evaluation, consequent modification, the seven activation methods, integral and weighted defuzzifiers, output cascade, translated term/norm/hedge kernels) and a theorem that, for every engine whose enabled blocks use General activation, process equals the declaratively stated documented pipeline (Spec/Pipeline.v): ordered contributions, rules see exactly the contributions so far, disabled rules/blocks/variables contribute nothing, stale fuzzy outputs and rule state are ignored, inputs are never changed, stored degrees are the firing degrees - proved for arbitrary engines by induction over blocks and rules, generic in the number type. Bit-exact correspondence of every observable (output value, previous value, each fuzzy-output term and degree, each rule's degree and triggered flag, or the exception class) on generated engines x rows with all activation methods, plus an independent Python re-statement of the pipeline as direct oracle.",
+        note="Coq kernel + vm_compute; theorems closed under the global context; hand models tied by correspondence; rule trees are taken from the implementation's loaded rules (parsing is C06); Function terms not generated; Python value kinds not modelled; known finding pipeline:hedged-consequent-leak reported as KNOWN-FINDING.",
+        technique="Rocq refinement proof (model of process = declarative pipeline spec) + bit-exact correspondence on generated engines",
+        ref="DESIGN.md §3 C01, §9"),
+    "C06": dict(
+        text="Character-level model of Function.format_infix, the shunting-yard over the operator table regenerated from factory.py, and Antecedent.load/activation_degree; theorems: shunting-yard completeness for every printing of an expression tree with minimal or redundant parentheses (unbounded, by induction on the printing derivation), tokeniser lemma for glued parentheses, load of any grammar-derived antecedent yields its tree, evaluation equals the reference semantics (hedges nearest the term first, any = 1, disabled variable = 0, output variables read the grouped activation degree), rule degree = weight x semantics, and-binds-tighter / left-associativity / parentheses-override corollaries; table facts by computation on the generated table. Exact correspondence of Antecedent.postfix() and activate_with bits over generated trees, spellings, operator pairs incl. non-commutative lambda operators.",
+        note="Coq kernel + vm_compute; closed under the global context except any_yields_one (Reals axioms); hand model tied by correspondence; names_ok side conditions (no variable named like a formula function, ASCII, no operator characters in names) are stated hypotheses.",
+        technique="Rocq proof (shunting-yard completeness, parser/evaluator vs grammar semantics) + exact correspondence",
+        ref="DESIGN.md §3 C06"),
+    "C08": dict(
+        text="Model of the seven Activation.activate loops as written, generic in the rule state; theorems for blocks of any length: the sequence of trigger calls equals the declarative selection of each method (General, First/Last with count and threshold, Highest/Lowest with ties broken by insertion order, Threshold comparators, Proportional normalisation), triggered flag iff selected, enabled and degree > 0, unselected and unloaded rules untouched, vector degrees rejected by every method but General. Exact correspondence of the whole call log, final degrees and flags against real RuleBlocks (exhaustive small blocks, random blocks with ties/NaN/inf, batches).",
+        note="Coq kernel + vm_compute; Highest/Lowest on binary64 use the standard library's FloatAxioms (ltb_spec, eqb_spec, opp_spec) about primitive floats, over R the Reals axioms; heapq trusted to pop in key order; hand model tied by correspondence.",
+        technique="Rocq proof (loops = declarative selections) + exact correspondence on call logs",
+        ref="DESIGN.md §3 C08"),
+    "C09": dict(
+        text="Model of NumPy's pairwise summation and nan-reductions and of the five integral defuzzifiers line by line; theorems: pairwise sum = plain sum over R, midpoints formula/range/monotonicity, closed forms of Centroid, SOM/MOM/LOM and Bisector, result in [min,max], SOM <= MOM <= LOM, NaN exactly when every sample is zero (over the extended reals), centroid translation, batch = rows. Bit-exact correspondence for resolutions 1..1000 incl. the pairwise block edges, arbitrary ranges, scalar and batch.",
+        note="Coq kernel + vm_compute; stdlib Reals axioms; hand model of NumPy 1.26.4 reductions validated bit-for-bit; known finding batch:resolution-1 reported as KNOWN-FINDING.",
+        technique="Rocq proof over R / extended reals of a hand model + bit-exact correspondence",
+        ref="DESIGN.md §3 C09"),
+    "C10": dict(
+        text="Model of Aggregated.grouped_terms, WeightedDefuzzifier.infer_type and both weighted defuzzifiers; theorems: grouping (first-occurrence order, folded degrees), weighted average/sum closed forms over R, average of constants between min and max, NaN iff no activations or all weights zero and zero-degree activations are neutral (extended reals), type inference, Tsukamoto requires monotonic terms. Exact correspondence incl. repeated names, every aggregation operator, batch degrees, special values.",
+        note="Coq kernel + vm_compute; stdlib Reals axioms; hand model tied by correspondence; Linear/Function term values passed as tables.",
+        technique="Rocq proof over R / extended reals of a hand model + exact correspondence",
+        ref="DESIGN.md §3 C10"),
+    "C13": dict(
+        text="Operation language (set input, process, restart, copy, switch, edit rule/output/block) over a store of engine values built on the engine model; theorems: processing is history-free and idempotent on output values without lock-previous (General activation), process preserves structure, restart erases history and yields the fresh state, every operation touches the current engine only. Exact correspondence of every live engine's observables after every step of generated operation sequences; implementation-side oracles for idempotence, equality with a freshly built engine, restart cleanliness, and an object-graph check that a copy shares no mutable object with its original.",
+        note="Coq kernel + vm_compute; closed under the global context; copy() is the identity on values in the model: independence of the Python object graphs is checked on the implementation only (ids + behaviour), not proved; engines with Linear/Function terms are checked on the implementation only.",
+        technique="Rocq proof about operation sequences on the engine model + exact correspondence + object-graph oracle",
+        ref="DESIGN.md §3 C13"),
+    "C18": dict(
+        text="Model of Op.increment, the grid resolution (with the integer-root correction loops), the grid loop, header/row selection and the reader; theorems: the grid is exactly the lexicographic enumeration of the product of ranges with the last input fastest (any number of inputs), each-variable grids are equidistant from minimum to maximum, k is the largest integer with k^n <= v for every starting estimate of the root, rows = k^n, reader rows are exactly the non-blank non-comment lines after the skipped ones. Correspondence: grid shapes for v up to 2000 x n = 1..4 x both scopes, whole exported texts byte for byte, reader texts.",
+        note="Coq kernel + vm_compute; stdlib Reals axioms; number formatting and engine outputs are parameters supplied by the harness; hand model tied by correspondence.",
+        technique="Rocq proof (enumeration, integer root) about a hand model + exact correspondence on exported text",
+        ref="DESIGN.md §3 C18"),
+    "C19": dict(
+        text="Control-flow model of Engine.is_ready and of the first exception Engine.process raises (all seven activation methods, integral and weighted outputs), abstracting numbers away; theorems for every engine: ready + activation methods + whitespace-separated tokens + well-formed terms imply process raises nothing, and every needed but missing conjunction, disjunction, implication, aggregation or defuzzifier is reported; exact characterisation of the old hole kept as lemmas. Exhaustive correspondence over 2^5 operator subsets x rule shapes x defuzzifier kinds x blocks plus random structure: message kinds and exception classes.",
+        note="Coq kernel + vm_compute; closed under the global context; numeric layers are parameters (term errors, non-General selections); hand model tied by correspondence.",
+        technique="Rocq proof about a control-flow model + exhaustive correspondence over configuration cells",
+        ref="DESIGN.md §3 C19"),
 }
 PENDING_REASON = "check under construction in this round (planned in DESIGN.md §3); not claimed until its theorems and correspondence run"
 
